@@ -18,6 +18,7 @@ package num
 //@ spec neg(a Amount) Amount = Amount(0 - a.value, a.exp)
 //
 //@ global factor1 == Amount(1, 0) && factor100 == Amount(100, 0)
+//@ global PercentageZero == Percentage(Amount(0, 0)) && AmountZero == Amount(0, 0)
 //
 //@ func MakeAmount(val, exp) (r)
 //@   ensures r.value == val && r.exp == exp
